@@ -6,10 +6,12 @@ valve_writer.go, multi_closer.go.
 
 The wrapped `io.Writer` is a scripted peer `Down`: one response per `Write`
 call saying how many bytes it takes (clamped to the offer) and whether it
-returns an error. The script is *not* forced to obey the io.Writer contract
-(short write ⇒ error): the model is defined for every script, the theorems
-that need the contract assume `Conforming`. An exhausted script accepts
-everything without error. `Down` records the accepted bytes and the length
+returns an error. A response returns an error when it is marked `fail` or —
+unless it is marked `lax` — when it takes fewer bytes than offered, as the
+io.Writer contract demands (short write ⇒ error). `lax` responses model
+contract-violating writers: the model is defined for every script, the
+theorems that need the contract assume `Down.Conforming` (no `lax` response).
+An exhausted script accepts everything without error. `Down` records the accepted bytes and the length
 offered on every call, so "was not called" and "was offered too much" are
 observable.
 -/
@@ -21,6 +23,8 @@ inductive Err | none | peer | preempted | maxbuf
 structure WResp where
   accept : Nat
   fail : Bool
+  /-- a short write is *not* turned into an error (violates the io.Writer contract) -/
+  lax : Bool := false
   deriving Repr, DecidableEq
 
 structure Down where
@@ -39,7 +43,12 @@ def Down.write (d : Down) (p : List UInt8) : Down × Nat × Bool :=
   | [] => ({ d with got := d.got ++ p, offers := d.offers ++ [p.length] }, p.length, false)
   | r :: rest =>
     let n := min r.accept p.length
-    ({ script := rest, got := d.got ++ p.take n, offers := d.offers ++ [p.length] }, n, r.fail)
+    ({ script := rest, got := d.got ++ p.take n, offers := d.offers ++ [p.length] }, n,
+      r.fail || (!r.lax && decide (n < p.length)))
+
+/-- The peer obeys the io.Writer contract: no response may take fewer bytes
+than offered without reporting an error. -/
+def Down.Conforming (d : Down) : Prop := ∀ r ∈ d.script, r.lax = false
 
 def peerErr (failed : Bool) : Err := if failed then .peer else .none
 
@@ -184,5 +193,89 @@ def multiClose : List (Option Nat) → List Nat → Nat → Option Nat → List 
 
 def MultiCloser.close (closers : List (Option Nat)) : List Nat × Option Nat :=
   multiClose closers [] 0 none
+
+/-! ### Write sequences -/
+
+def Cutoff.run (w : Cutoff) : List (List UInt8) → Cutoff × List (Nat × Err)
+  | [] => (w, [])
+  | b :: bs =>
+    let (w', n, e) := w.write b
+    let (w'', rs) := w'.run bs
+    (w'', (n, e) :: rs)
+
+def LineProc.run (p : LineProc) : List (List UInt8) → LineProc × List (Nat × Err)
+  | [] => (p, [])
+  | b :: bs =>
+    let (p', n, e) := p.write b
+    let (p'', rs) := p'.run bs
+    (p'', (n, e) :: rs)
+
+def Hashed.run (w : Hashed) : List (List UInt8) → Hashed × List (Nat × Err)
+  | [] => (w, [])
+  | b :: bs =>
+    let (w', n, e) := w.write b
+    let (w'', rs) := w'.run bs
+    (w'', (n, e) :: rs)
+
+/-- A schedule for the preemptable writer: every write comes with the state of
+the cancellation channel at the moment the write polls it. -/
+def Preempt.run (w : Preempt) : List (Bool × List UInt8) → Preempt × List (Nat × Err)
+  | [] => (w, [])
+  | (c, b) :: rest =>
+    let (w', n, e) := w.write c b
+    let (w'', rs) := w'.run rest
+    (w'', (n, e) :: rs)
+
+inductive ValveOp
+  | write (buffer : List UInt8)
+  | shut
+  deriving Repr
+
+def Valve.run (w : Valve) : List ValveOp → Valve × List (Nat × Err)
+  | [] => (w, [])
+  | .write b :: rest =>
+    let (w', n, e) := w.write b
+    let (w'', rs) := w'.run rest
+    (w'', (n, e) :: rs)
+  | .shut :: rest => w.shut.run rest
+
+/-- Writing a sequence directly to the peer (what an unwrapped caller sees). -/
+def Down.run (d : Down) : List (List UInt8) → Down × List (Nat × Err)
+  | [] => (d, [])
+  | b :: bs =>
+    let (d', n, failed) := d.write b
+    let (d'', rs) := d'.run bs
+    (d'', (n, peerErr failed) :: rs)
+
+/-! ### Specification vocabulary -/
+
+/-- The bytes a caller may regard as written: the first `n` bytes of each
+buffer, `n` being the count the `Write` call returned. -/
+def consumed : List (List UInt8) → List (Nat × Err) → List UInt8
+  | b :: bs, (n, _) :: rs => b.take n ++ consumed bs rs
+  | _, _ => []
+
+/-- The bytes of the writes that were accepted (returned a nil error). -/
+def accepted : List (List UInt8) → List (Nat × Err) → List UInt8
+  | b :: bs, (_, e) :: rs => (if e = .none then b else []) ++ accepted bs rs
+  | _, _ => []
+
+/-- The buffer-size check of `LineProcessor.Write`: would `n` more bytes on top
+of `pending` buffered ones exceed the limit? (`0`: the default limit from the
+code, negative: no limit.) -/
+def lineLimitExceeded (maxBuf : Int) (pending n : Nat) : Prop :=
+  (maxBuf = 0 ∧ pending + n > Mutagen.Facts.streamDefaultLineProcessorMaximumBufferSize) ∨
+  (maxBuf > 0 ∧ ((pending + n : Nat) : Int) > maxBuf)
+
+/-- Split a byte stream at `'\n'`: the complete lines (without the newline)
+and the trailing fragment after the last newline. -/
+def splitLines : List UInt8 → List (List UInt8) × List UInt8
+  | [] => ([], [])
+  | b :: rest =>
+    let (ls, rem) := splitLines rest
+    if b = 10 then ([] :: ls, rem)
+    else match ls with
+      | [] => ([], b :: rem)
+      | l :: ls' => ((b :: l) :: ls', rem)
 
 end Mutagen.Model.StreamWriters
